@@ -217,22 +217,31 @@ func (c *LocalReusableWorkflowCache) FindMetadata(spec string) (*ReusableWorkflo
 		return m, nil
 	}
 
+	// Keep the lock until the cache is written. Otherwise multiple goroutines can miss the cache for
+	// the same workflow at the same time and all of them report the same error of the workflow.
+	c.mu.Lock()
+	defer c.mu.Unlock()
+	if m, ok := c.cache[spec]; ok {
+		c.debug("Cache hit for %s: %v", spec, m)
+		return m, nil
+	}
+
 	file := filepath.Join(c.proj.RootDir(), filepath.FromSlash(spec))
 	src, err := os.ReadFile(file)
 	if err != nil {
-		c.writeCache(spec, nil) // Remember the workflow file was not found
+		c.cache[spec] = nil // Remember the workflow file was not found
 		return nil, fmt.Errorf("could not read reusable workflow file for %q: %w", spec, err)
 	}
 
 	m, err := parseReusableWorkflowMetadata(src)
 	if err != nil {
-		c.writeCache(spec, nil) // Remember the workflow file was invalid
+		c.cache[spec] = nil // Remember the workflow file was invalid
 		msg := strings.ReplaceAll(err.Error(), "\n", " ")
 		return nil, fmt.Errorf("error while parsing reusable workflow %q: %s", spec, msg)
 	}
 
 	c.debug("New reusable workflow metadata at %s: %v", file, m)
-	c.writeCache(spec, m)
+	c.cache[spec] = m
 	return m, nil
 }
 
